@@ -64,7 +64,18 @@ R_MUST = _rule("R-MUST", "r_must", text="must-pass-through on accepting paths: t
                "infinity / zero tests, scalar / group arithmetic, decode / encode, parity, sort) executed on every path to every accepting return of each exported function on the "
                "reviewed tree (tables/must_pass.json) are still executed on every such path (accept-path partitioned dataflow over clang's CFG with must summaries of helpers)")
 
-DECODE = [R_CHK, R_OBL, R_RED, R_ORD, R_TAG, R_BOOL, R_VERDICT, R_SCTX, R_MUST]
+def _const_run(cfg, tier):
+    import r_const
+    return _memo("R-CONST", cfg, lambda c: r_const.obligations(c))
+
+
+R_CONST = {"name": "R-CONST", "run": _const_run}
+RULE_TEXT["R-CONST"] = ("numeric constants and precomputed tables, read from the compiler's IR of each configuration (and `clang -E -dM` for limb macros), satisfy their defining "
+                        "identities computed by the checker from the SEC 2 parameters: group order / 2^256-n / n/2 limbs, modular-inverse parameters, G, lambda / beta and the GLV "
+                        "lattice with g1, g2, n and p-n as field elements, ecmult_const K, sqrt(-3) constants of ElligatorSwift and SvdW, generator H, every entry of "
+                        "secp256k1_pre_g / pre_g_128 ((2i+1)G, (2i+1)2^128 G) and of the ecmult_gen comb table")
+
+DECODE = [R_CHK, R_OBL, R_RED, R_ORD, R_TAG, R_BOOL, R_VERDICT, R_SCTX, R_MUST, R_CONST]
 BOUNDS = [R_CAP, R_RING, R_WRAP, R_INB, R_LEN, R_SIB, R_BITS]
 
 ALL_CFG = ["K0", "K1", "K2", "K3"]
@@ -101,12 +112,13 @@ _prop("C03", DECODE + [R_ZOF, R_INB, R_LEN, R_SIZE],
 _prop("C04", DECODE + [R_FLOW, R_ZOF],
       "Key algebra, structural clauses.",
       "commutation of secret and public operations, correctness of heap sort beyond its length argument, lexicographic order")
-_prop("C05", [R_FLOW, R_PAIR],
-      "Arithmetic and hashing kernel — only the hashing clause has a structural part: caller lengths reach secp256k1_sha256_write unmodified "
+_prop("C05", [R_FLOW, R_PAIR, R_CONST],
+      "Arithmetic and hashing kernel — the clauses with a structural part: (hashing) caller lengths reach secp256k1_sha256_write unmodified "
       "(tagged hash, HMAC), sha256_write moves data pointer and remaining length together, sha256_transform compresses consecutive blocks; "
-      "scratch checkpoints of the multi-scalar batches are restored on every exit.",
-      "ALL field / scalar / group / ecmult exactness and cross-configuration bit-identity: statements about 256-bit values, out of reach of static analysis here "
-      "(a seeded carry loss in scalar_mul_shift_var is NOT detected; declared not applicable for those clauses)")
+      "scratch checkpoints of the multi-scalar batches are restored on every exit; (data) every numeric constant and every entry of the precomputed ecmult / ecmult_gen "
+      "tables, as the compiler sees them in each configuration (4x64 and 8x32 limbs, 5x52 and 10x26), satisfies its defining identity (R-CONST).",
+      "the field / scalar / group / ecmult *algorithms* (carry chains, reductions, addition formulas, wNAF / comb recoding) and their cross-configuration bit-identity: statements "
+      "about 256-bit values computed at run time, out of reach of static analysis here (a seeded carry loss in scalar_mul_shift_var is NOT detected; declared not decided)")
 _prop("C07", BOUNDS + [R_PAIR, R_SIZE, R_BOOL, R_ABORT],
       "Untrusted bytes, structural clauses.",
       "general in-bounds / UB-freedom of the proof verifiers (needs relational invariants such as npub = sum rsizes <= 128, outside the interval and linear-form domains: "
